@@ -139,20 +139,13 @@ func (m *Manager) Allocate(ctx context.Context, cni *daemon.CNI, req *AllocReque
 	defer cancel()
 
 	go func() {
-		// start a goroutine to collect the result
-		for {
-			select {
-			case <-ctx.Done():
-				close(done)
-				return
-			case resp, ok := <-resultCh:
-				if !ok {
-					close(done)
-					return
-				}
-				result = append(result, resp...)
-			}
+		// start a goroutine to collect the result.
+		// collect until every request goroutine is done: a resource a backend has handed over is always part of the
+		// result, also when the context ended meanwhile, so the caller can roll it back
+		for resp := range resultCh {
+			result = append(result, resp...)
 		}
+		close(done)
 	}()
 
 	wg := sync.WaitGroup{}
@@ -189,7 +182,11 @@ func (m *Manager) Allocate(ctx context.Context, cni *daemon.CNI, req *AllocReque
 					break
 				}
 			}
-			return nil, fmt.Errorf("no eni can handle the allocation")
+			cancel()
+			wg.Wait()
+			close(resultCh)
+			<-done
+			return result, fmt.Errorf("no eni can handle the allocation")
 		}
 
 		wg.Add(1)
@@ -212,10 +209,8 @@ func (m *Manager) Allocate(ctx context.Context, cni *daemon.CNI, req *AllocReque
 					break
 				}
 
-				select {
-				case <-ctx.Done():
-				case resultCh <- resp.NetworkConfigs:
-				}
+				// the backend already marked the resource for this pod, never drop it
+				resultCh <- resp.NetworkConfigs
 			}
 		}()
 	}
